@@ -103,7 +103,18 @@ func (a *Agent) Start(p pool.Pool) error {
 		a.mu.Unlock()
 		return ErrAlreadyStarted
 	}
+	a.started = true
 	a.mu.Unlock()
+
+	running := false
+	defer func() {
+		if !running {
+			// Start failed: nothing is running, the agent can be started again.
+			a.mu.Lock()
+			a.started = false
+			a.mu.Unlock()
+		}
+	}()
 
 	startCtx, cancel := context.WithTimeout(context.Background(), startTimeout)
 	defer cancel()
@@ -141,8 +152,14 @@ func (a *Agent) Start(p pool.Pool) error {
 		return err
 	}
 
+	running = true
 	go func() {
-		a.waitCh <- a.serveUpdates(p)
+		err := a.serveUpdates(p)
+		// However the loop ended (Stop, or a failed update), it is over.
+		a.mu.Lock()
+		a.started = false
+		a.mu.Unlock()
+		a.waitCh <- err
 	}()
 	return nil
 }
